@@ -34,6 +34,7 @@ structure GoodRes (n : Nat) (r : Res) : Prop where
   len_le : r.len ≤ n
   len_pos : r.err = .ok → 1 ≤ r.len
   pcrel : r.pcrel ≠ 0 → (r.pcrel = 1 ∨ r.pcrel = 2 ∨ r.pcrel = 4) ∧ 1 ≤ r.pcreloff ∧ r.pcreloff + r.pcrel ≤ r.len
+  opc : r.err = .ok → r.pcrel ≠ 0 → r.opcode ≠ 0
 
 theorem good_instPrefix (src : Bytes) (h : 0 < src.length) : GoodRes src.length (instPrefix src) := by
   unfold instPrefix
@@ -55,6 +56,8 @@ structure PcInv (s : St) : Prop where
   rip : s.memBase = regRIP → s.displen = 4 ∧ 1 ≤ s.dispoff ∧ s.dispoff + 4 ≤ s.pos
   nomodrm : s.haveModrm = false → s.memBase ≠ regRIP
   pcrel : s.pcrel ≠ 0 → (s.pcrel = 1 ∨ s.pcrel = 2 ∨ s.pcrel = 4) ∧ 1 ≤ s.pcreloff ∧ s.pcreloff + s.pcrel ≤ s.pos
+  rip_nz : s.memBase = regRIP → s.opcode ≠ 0
+  pcrel_nz : s.pcrel ≠ 0 → s.opcode ≠ 0
 
 structure Inv (n : Nat) (c : Cert) (s : St) : Prop where
   narg : s.narg ≤ c.nargMax
@@ -63,6 +66,8 @@ structure Inv (n : Nat) (c : Cert) (s : St) : Prop where
   cons : c.cons = true → 1 ≤ s.pos
   immc : 0 < c.immcw → 1 ≤ s.immcpos ∧ s.immcpos + c.immcw ≤ s.pos
   pc : PcInv s
+  /-- `inst.Opcode` is already non-zero, or at most `c.z - 1` bytes were shifted in so far -/
+  opz : s.opcode ≠ 0 ∨ (1 ≤ c.z ∧ 40 ≤ s.osh8 + 8 * c.z)
 
 structure BrkGood (n : Nat) (s : St) : Prop where
   pos_le : s.pos ≤ n
@@ -74,30 +79,40 @@ def StepGood (n : Nat) (c : Cert) : Step → Prop
   | .brk s' => BrkGood n s'
   | .ret r => GoodRes n r
 
-theorem edgeOK_elim {c : Cert} {dn rd : Nat} {cs : Bool} {pc' : Nat} (h : edgeOK c dn rd cs pc' = true) :
+theorem edgeOK_elim {c : Cert} {dn rd : Nat} {cs pz : Bool} {np pc' : Nat} (h : edgeOK c dn rd cs pz np pc' = true) :
     ∃ c', cert? pc' = some c' ∧ c'.rank < c.rank ∧ c.nargMax + dn ≤ c'.nargMax ∧ c'.nargMax ≤ len_args ∧
-      c'.immcw ≤ (if rd = 0 then c.immcw else rd) ∧ (c'.cons = true → c.cons = true ∨ cs = true) := by
+      c'.immcw ≤ (if rd = 0 then c.immcw else rd) ∧ (c'.cons = true → c.cons = true ∨ cs = true) ∧ edgeZ c.z pz np ≤ c'.z := by
   unfold edgeOK at h
   split at h
   · simp at h
   · rename_i c' hc'
     simp only [Bool.and_eq_true, decide_eq_true_eq, Bool.or_eq_true, Bool.not_eq_true'] at h
-    refine ⟨c', hc', h.1.1.1.1, h.1.1.1.2, h.1.1.2, h.1.2, ?_⟩
+    refine ⟨c', hc', h.1.1.1.1.1, h.1.1.1.1.2, h.1.1.1.2, h.1.1.2, ?_, h.2⟩
     intro hc
-    rcases h.2 with (h2 | h2) | h2
+    rcases h.1.2 with (h2 | h2) | h2
     · simp [hc] at h2
     · exact Or.inl h2
     · exact Or.inr h2
 
-/-- the generic successor lemma: an edge whose effect is (dn, rd, cs), taken from a state satisfying the invariant to a state
-    that differs as the effect says, re-establishes the invariant at the successor's certificate -/
-theorem edge_next {n : Nat} {c : Cert} {dn rd : Nat} {cs : Bool} {pc' : Nat} {s s' : St}
-    (h : edgeOK c dn rd cs pc' = true) (hi : Inv n c s)
+/-- how an edge may change `inst.Opcode` / `opshift`: never back to zero, at most `np` shifts, and if `pz` a non-zero byte is
+    shifted in whenever there is room -/
+structure OpRel (s s' : St) (pz : Bool) (np : Nat) : Prop where
+  mono : s.opcode ≠ 0 → s'.opcode ≠ 0
+  osh : s.osh8 ≤ s'.osh8 + 8 * np
+  nz : pz = true → 8 ≤ s.osh8 → s'.opcode ≠ 0
+
+theorem OpRel.same {s s' : St} {np : Nat} (h1 : s'.opcode = s.opcode) (h2 : s'.osh8 = s.osh8) : OpRel s s' false np :=
+  ⟨fun h => h1 ▸ h, by omega, fun h => by cases h⟩
+
+/-- the generic successor lemma: an edge whose effect is (dn, rd, cs, pz, np), taken from a state satisfying the invariant to a
+    state that differs as the effect says, re-establishes the invariant at the successor's certificate -/
+theorem edge_next {n : Nat} {c : Cert} {dn rd : Nat} {cs pz : Bool} {np pc' : Nat} {s s' : St}
+    (h : edgeOK c dn rd cs pz np pc' = true) (hi : Inv n c s)
     (hn : s'.narg = s.narg + dn) (hp : s.pos ≤ s'.pos) (hp' : s'.pos ≤ n) (hcs : cs = true → 1 ≤ s'.pos)
     (him : if rd = 0 then s'.immcpos = s.immcpos else (1 ≤ s'.immcpos ∧ s'.immcpos + rd ≤ s'.pos))
-    (hpc : PcInv s') : StepGood n c (.next pc' s') := by
-  obtain ⟨c', hc', hr, hna, hnm, hiw, hco⟩ := edgeOK_elim h
-  refine ⟨c', hc', hr, ⟨?_, hnm, hp', ?_, ?_, hpc⟩⟩
+    (hpc : PcInv s') (hop : OpRel s s' pz np) : StepGood n c (.next pc' s') := by
+  obtain ⟨c', hc', hr, hna, hnm, hiw, hco, hz⟩ := edgeOK_elim h
+  refine ⟨c', hc', hr, ⟨?_, hnm, hp', ?_, ?_, hpc, ?_⟩⟩
   · have := hi.narg; omega
   · intro hc; rcases hco hc with h1 | h1
     · have := hi.cons h1; omega
@@ -109,11 +124,27 @@ theorem edge_next {n : Nat} {c : Cert} {dn rd : Nat} {cs : Bool} {pc' : Nat} {s 
       rw [him]; omega
     · simp only [hrd, if_false] at him hiw
       omega
+  · rcases hi.opz with h0 | ⟨h1, h2⟩
+    · exact Or.inl (hop.mono h0)
+    · unfold edgeZ at hz
+      have hz0 : ¬ c.z = 0 := by omega
+      rw [if_neg hz0] at hz
+      by_cases hpz : (pz && decide (c.z ≤ 4)) = true
+      · simp only [Bool.and_eq_true, decide_eq_true_eq] at hpz
+        exact Or.inl (hop.nz hpz.1 (by omega))
+      · rw [if_neg hpz] at hz
+        have := hop.osh
+        refine Or.inr ⟨by omega, ?_⟩
+        by_cases h5 : 5 ≤ c.z + np
+        · have : min 5 (c.z + np) = 5 := by omega
+          omega
+        · have : min 5 (c.z + np) = c.z + np := by omega
+          omega
 
 /-- the entry point pc = 1 carries a certificate whose claims hold of the initial decoder state -/
 def entryOK2 : Bool :=
   match cert? 1 with
-  | some c => decide (c.rank < fuel0) && decide (c.nargMax ≤ len_args) && decide (c.immcw = 0) && !c.cons
+  | some c => decide (c.rank < fuel0) && decide (c.nargMax ≤ len_args) && decide (c.immcw = 0) && !c.cons && decide (1 ≤ c.z)
   | none => false
 
 theorem entryOK2_true : entryOK2 = true := by decide +kernel
@@ -134,11 +165,13 @@ theorem q_dite {α : Type} {Q : α → Prop} {cnd : Prop} [Decidable cnd] {a : c
 
 theorem PcInv.of_eq {s s' : St} (h : PcInv s) (h1 : s'.memBase = s.memBase) (h2 : s'.displen = s.displen)
     (h3 : s'.dispoff = s.dispoff) (h4 : s'.haveModrm = s.haveModrm) (h5 : s'.pcrel = s.pcrel) (h6 : s'.pcreloff = s.pcreloff)
-    (h7 : s.pos ≤ s'.pos) : PcInv s' := by
+    (h7 : s.pos ≤ s'.pos) (h8 : s.opcode ≠ 0 → s'.opcode ≠ 0) : PcInv s' := by
   constructor
   · rw [h1, h2, h3]; intro hm; have := h.rip hm; omega
   · rw [h1, h4]; exact h.nomodrm
   · rw [h5, h6]; intro hp; have := h.pcrel hp; omega
+  · rw [h1]; intro hm; exact h8 (h.rip_nz hm)
+  · rw [h5]; intro hp; exact h8 (h.pcrel_nz hp)
 
 @[simp] theorem pushOpcode_pos (s : St) (b : Nat) : (pushOpcode s b).pos = s.pos := by unfold pushOpcode; split <;> rfl
 @[simp] theorem pushOpcode_narg (s : St) (b : Nat) : (pushOpcode s b).narg = s.narg := by unfold pushOpcode; split <;> rfl
@@ -153,32 +186,63 @@ theorem PcInv.of_eq {s s' : St} (h : PcInv s) (h1 : s'.memBase = s.memBase) (h2 
 @[simp] theorem pushOpcode_mod (s : St) (b : Nat) : (pushOpcode s b).mod_ = s.mod_ := by unfold pushOpcode; split <;> rfl
 @[simp] theorem pushOpcode_rm (s : St) (b : Nat) : (pushOpcode s b).rm = s.rm := by unfold pushOpcode; split <;> rfl
 
+theorem shl_ne_zero {b k : Nat} (hb : b ≠ 0) : b <<< k ≠ 0 := by
+  rw [Nat.shiftLeft_eq]
+  exact Nat.mul_ne_zero hb (Nat.pos_iff_ne_zero.mp (Nat.two_pow_pos k))
+
+theorem or_ne_zero_left {a b : Nat} (h : a ≠ 0) : a ||| b ≠ 0 := by
+  intro h0
+  have := Nat.or_eq_zero_iff.mp h0
+  exact h this.1
+
+theorem or_ne_zero_right {a b : Nat} (h : b ≠ 0) : a ||| b ≠ 0 := by
+  intro h0
+  have := Nat.or_eq_zero_iff.mp h0
+  exact h this.2
+
+theorem pushOpcode_mono (s : St) (b : Nat) (h : s.opcode ≠ 0) : (pushOpcode s b).opcode ≠ 0 := by
+  unfold pushOpcode; split
+  · exact or_ne_zero_left h
+  · exact h
+
+theorem pushOpcode_osh (s : St) (b : Nat) : s.osh8 ≤ (pushOpcode s b).osh8 + 8 := by
+  unfold pushOpcode; split
+  · show s.osh8 ≤ s.osh8 - 8 + 8; omega
+  · omega
+
+theorem pushOpcode_nz (s : St) (b : Nat) (hb : b ≠ 0) (h : 8 ≤ s.osh8) : (pushOpcode s b).opcode ≠ 0 := by
+  unfold pushOpcode
+  rw [if_pos h]
+  exact or_ne_zero_right (shl_ne_zero hb)
+
 /-- an edge that changes nothing the invariant talks about -/
-theorem edge_same {n : Nat} {c : Cert} {pc' : Nat} {s s' : St} (h : edgeOK c 0 0 false pc' = true) (hi : Inv n c s)
+theorem edge_same {n : Nat} {c : Cert} {pc' : Nat} {s s' : St} (h : edgeOK c 0 0 false false 0 pc' = true) (hi : Inv n c s)
     (h0 : s'.narg = s.narg) (h1 : s'.pos = s.pos) (h2 : s'.immcpos = s.immcpos)
     (h3 : s'.memBase = s.memBase) (h4 : s'.displen = s.displen) (h5 : s'.dispoff = s.dispoff) (h6 : s'.haveModrm = s.haveModrm)
-    (h7 : s'.pcrel = s.pcrel) (h8 : s'.pcreloff = s.pcreloff) : StepGood n c (.next pc' s') := by
+    (h7 : s'.pcrel = s.pcrel) (h8 : s'.pcreloff = s.pcreloff) (h9 : s'.opcode = s.opcode) (h10 : s'.osh8 = s.osh8) :
+    StepGood n c (.next pc' s') := by
   apply edge_next h hi
   · omega
   · omega
   · rw [h1]; exact hi.pos_le
   · intro hh; cases hh
   · simp [h2]
-  · exact hi.pc.of_eq h3 h4 h5 h6 h7 h8 (by omega)
+  · exact hi.pc.of_eq h3 h4 h5 h6 h7 h8 (by omega) (fun h => h9 ▸ h)
+  · exact OpRel.same h9 h10
 
 theorem brk_fail {n : Nat} {c : Cert} {s : St} (hi : Inv n c s) : BrkGood n { s with op := 0 } :=
-  ⟨hi.pos_le, fun h => absurd rfl h, hi.pc.of_eq rfl rfl rfl rfl rfl rfl (Nat.le_refl _)⟩
+  ⟨hi.pos_le, fun h => absurd rfl h, hi.pc.of_eq rfl rfl rfl rfl rfl rfl (Nat.le_refl _) id⟩
 
 theorem condPrefixLoop_good {n : Nat} {c : Cert} (P : Pfx) (ents : List (Nat × Nat)) (s : St)
-    (h : ents.all (fun e => edgeOK c 0 0 false e.2) = true) (hi : Inv n c s) : StepGood n c (condPrefixLoop P ents s) := by
+    (h : ents.all (fun e => edgeOK c 0 0 false false 0 e.2) = true) (hi : Inv n c s) : StepGood n c (condPrefixLoop P ents s) := by
   induction ents with
   | nil => exact brk_fail hi
   | cons e rest ih =>
     obtain ⟨p, t⟩ := e
     simp only [List.all_cons, Bool.and_eq_true] at h
     have ih := ih h.2
-    have ht : StepGood n c (.next t s) := edge_same h.1 hi rfl rfl rfl rfl rfl rfl rfl rfl rfl
-    have ht' : StepGood n c (.next t { s with repImplicit := true }) := edge_same h.1 hi rfl rfl rfl rfl rfl rfl rfl rfl rfl
+    have ht : StepGood n c (.next t s) := edge_same h.1 hi rfl rfl rfl rfl rfl rfl rfl rfl rfl rfl rfl
+    have ht' : StepGood n c (.next t { s with repImplicit := true }) := edge_same h.1 hi rfl rfl rfl rfl rfl rfl rfl rfl rfl rfl rfl
     have hb : StepGood n c (.brk { s with op := 0 }) := brk_fail hi
     unfold condPrefixLoop
     repeat' (first | exact ht | exact ht' | exact ih | exact hb | refine q_ite (fun _ => ?_) (fun _ => ?_) | dsimp only)
@@ -186,13 +250,14 @@ theorem condPrefixLoop_good {n : Nat} {c : Cert} (P : Pfx) (ents : List (Nat × 
 
 /-- the invariant only reads these fields -/
 theorem Inv.of_eq {n : Nat} {c : Cert} {s s' : St} (hi : Inv n c s) (h0 : s'.narg = s.narg) (h1 : s'.pos = s.pos)
-    (h2 : s'.immcpos = s.immcpos) (hpc : PcInv s') : Inv n c s' :=
-  ⟨h0 ▸ hi.narg, hi.nargMax, h1 ▸ hi.pos_le, h1 ▸ hi.cons, by rw [h1, h2]; exact hi.immc, hpc⟩
+    (h2 : s'.immcpos = s.immcpos) (hpc : PcInv s') (h3 : s'.opcode = s.opcode := by rfl) (h4 : s'.osh8 = s.osh8 := by rfl) :
+    Inv n c s' :=
+  ⟨h0 ▸ hi.narg, hi.nargMax, h1 ▸ hi.pos_le, h1 ▸ hi.cons, by rw [h1, h2]; exact hi.immc, hpc, by rw [h3, h4]; exact hi.opz⟩
 
-theorem putArg_good {n : Nat} {c : Cert} {next : Nat} {s : St} (r : Nat) (he : edgeOK c 1 0 false next = true) (hi : Inv n c s) :
+theorem putArg_good {n : Nat} {c : Cert} {next : Nat} {s : St} (r : Nat) (he : edgeOK c 1 0 false false 0 next = true) (hi : Inv n c s) :
     StepGood n c (putArg s r next) := by
   unfold putArg
-  obtain ⟨c', _, _, hna, hnm, _, _⟩ := edgeOK_elim he
+  obtain ⟨c', _, _, hna, hnm, _, _, _⟩ := edgeOK_elim he
   have hlt : s.narg < len_args := by have := hi.narg; omega
   rw [if_pos hlt]
   apply edge_next he hi
@@ -201,7 +266,8 @@ theorem putArg_good {n : Nat} {c : Cert} {next : Nat} {s : St} (r : Nat) (he : e
   · exact hi.pos_le
   · intro hh; cases hh
   · simp
-  · exact hi.pc.of_eq rfl rfl rfl rfl rfl rfl (Nat.le_refl _)
+  · exact hi.pc.of_eq rfl rfl rfl rfl rfl rfl (Nat.le_refl _) id
+  · exact OpRel.same rfl rfl
 
 theorem rip_ne_zero : (0 : Nat) ≠ regRIP := by decide
 
@@ -214,21 +280,25 @@ theorem PcInv.setPCRel {s : St} (h : PcInv s) : PcInv (setPCRelIfRip s) := by
   · exact h.nomodrm
   · intro _; show (s.displen = 1 ∨ s.displen = 2 ∨ s.displen = 4) ∧ 1 ≤ s.dispoff ∧ s.dispoff + s.displen ≤ s.pos
     omega
+  · exact h.rip_nz
+  · intro _; exact h.rip_nz hm
 
 @[simp] theorem setPCRel_narg (s : St) : (setPCRelIfRip s).narg = s.narg := by unfold setPCRelIfRip; split <;> rfl
 @[simp] theorem setPCRel_pos (s : St) : (setPCRelIfRip s).pos = s.pos := by unfold setPCRelIfRip; split <;> rfl
 @[simp] theorem setPCRel_immcpos (s : St) : (setPCRelIfRip s).immcpos = s.immcpos := by unfold setPCRelIfRip; split <;> rfl
+@[simp] theorem setPCRel_opcode (s : St) : (setPCRelIfRip s).opcode = s.opcode := by unfold setPCRelIfRip; split <;> rfl
+@[simp] theorem setPCRel_osh8 (s : St) : (setPCRelIfRip s).osh8 = s.osh8 := by unfold setPCRelIfRip; split <;> rfl
 
-theorem putMem_good {n : Nat} {c : Cert} {x next : Nat} {s : St} (he : edgeOK c 1 0 false next = true) (hx : x < len_memBytes)
+theorem putMem_good {n : Nat} {c : Cert} {x next : Nat} {s : St} (he : edgeOK c 1 0 false false 0 next = true) (hx : x < len_memBytes)
     (hi : Inv n c s) : StepGood n c (putMem s x next) := by
   unfold putMem
-  obtain ⟨c', _, _, hna, hnm, _, _⟩ := edgeOK_elim he
+  obtain ⟨c', _, _, hna, hnm, _, _, _⟩ := edgeOK_elim he
   have hlt : s.narg < len_args := by have := hi.narg; omega
   rw [if_pos hlt, if_pos hx]
-  exact putArg_good 0 he (hi.of_eq (by simp) (by simp) (by simp) hi.pc.setPCRel)
+  exact putArg_good 0 he (hi.of_eq (by simp) (by simp) (by simp) hi.pc.setPCRel (by simp) (by simp))
 
 theorem readImm_good {n : Nat} {c : Cert} {next : Nat} {s : St} (src : Bytes) (hn : n = src.length) (k : Nat) (hk : 1 ≤ k)
-    (he : edgeOK c 0 0 true next = true) (hi : Inv n c s) : StepGood n c (readImm src s k next) := by
+    (he : edgeOK c 0 0 true false 0 next = true) (hi : Inv n c s) : StepGood n c (readImm src s k next) := by
   unfold readImm
   refine q_ite (fun _ => ?_) (fun hle => ?_)
   · rw [hn]; exact good_truncated src
@@ -238,10 +308,11 @@ theorem readImm_good {n : Nat} {c : Cert} {next : Nat} {s : St} (src : Bytes) (h
     · show s.pos + k ≤ n; omega
     · intro _; show 1 ≤ s.pos + k; omega
     · simp
-    · exact hi.pc.of_eq rfl rfl rfl rfl rfl rfl (by show s.pos ≤ s.pos + k; omega)
+    · exact hi.pc.of_eq rfl rfl rfl rfl rfl rfl (by show s.pos ≤ s.pos + k; omega) id
+    · exact OpRel.same rfl rfl
 
 theorem readImmc_good {n : Nat} {c : Cert} {next : Nat} {s : St} (src : Bytes) (hn : n = src.length) (k w : Nat) (hw : 1 ≤ w) (hk : w ≤ k)
-    (hc : c.cons = true) (he : edgeOK c 0 w true next = true) (hi : Inv n c s) : StepGood n c (readImmc src s k next) := by
+    (hc : c.cons = true) (he : edgeOK c 0 w true false 0 next = true) (hi : Inv n c s) : StepGood n c (readImmc src s k next) := by
   unfold readImmc
   refine q_ite (fun _ => ?_) (fun hle => ?_)
   · rw [hn]; exact good_truncated src
@@ -255,15 +326,16 @@ theorem readImmc_good {n : Nat} {c : Cert} {next : Nat} {s : St} (src : Bytes) (
       rw [if_neg this]
       show 1 ≤ s.pos ∧ s.pos + w ≤ s.pos + k
       omega
-    · exact hi.pc.of_eq rfl rfl rfl rfl rfl rfl (by show s.pos ≤ s.pos + k; omega)
+    · exact hi.pc.of_eq rfl rfl rfl rfl rfl rfl (by show s.pos ≤ s.pos + k; omega) id
+    · exact OpRel.same rfl rfl
 
 
 def ExGood (n : Nat) (Q : St → Prop) : Except Res St → Prop
   | .error r => GoodRes n r
   | .ok s => Q s
 
-/-- facts relating the state before ModR/M decoding (`s0`) to a state during / after it -/
-structure MStage (n : Nat) (s0 s : St) : Prop where
+/-- facts relating the state before ModR/M decoding (`s0`) to a state during / after it; `k` = bytes shifted into Opcode so far -/
+structure MStage (n k : Nat) (s0 s : St) : Prop where
   narg : s.narg = s0.narg
   immcpos : s.immcpos = s0.immcpos
   pcrel : s.pcrel = s0.pcrel
@@ -273,6 +345,9 @@ structure MStage (n : Nat) (s0 s : St) : Prop where
   have_ : s.haveModrm = true
   notrip : s.memBase ≠ regRIP
   rm_lt : s.rm < 16
+  mono : s0.opcode ≠ 0 → s.opcode ≠ 0
+  osh : s0.osh8 ≤ s.osh8 + 8 * k
+  rm_nz : s.rm &&& 7 ≠ 0 → s.opcode ≠ 0
 
 def Disp (s0 s : St) : Prop :=
   s.mod_ = 0 ∧ s.rm &&& 7 = 5 → s.displen = 4 ∧ s0.pos + 1 ≤ s.dispoff ∧ s.dispoff + 4 ≤ s.pos
@@ -288,29 +363,53 @@ theorem and7_lt (a : Nat) : a &&& 7 < 16 := by
   have : a &&& 7 ≤ 7 := Nat.and_le_right
   omega
 
-theorem modrmHead_good {n : Nat} {c : Cert} (src : Bytes) (hn : n = src.length) (P : Pfx) (s0 : St) (hi : Inv n c s0) :
-    ExGood n (MStage n s0) (modrmHead src P s0) := by
+theorem or8_and7 : ∀ a, a < 16 → (a ||| 8) &&& 7 = a &&& 7 := by decide
+
+theorem and7_and7_ne {m : Nat} (h : (m &&& 7) &&& 7 ≠ 0) : m ≠ 0 := by
+  intro h0; rw [h0] at h; exact h (by decide)
+
+theorem modrmHead_good {n : Nat} {c : Cert} (src : Bytes) (hn : n = src.length) (P : Pfx) (s0 : St) (hi : Inv n c s0)
+    (hz : s0.opcode ≠ 0 ∨ 8 ≤ s0.osh8) : ExGood n (MStage n 1 s0) (modrmHead src P s0) := by
   unfold modrmHead
   refine q_ite (fun _ => ?_) (fun hm => ?_)
   · exact good_err n s0.pos .internal (Or.inl rfl) hi.pos_le
   · refine q_dite (fun hlt => ?_) (fun _ => ?_)
     · dsimp only
       have hnr := hi.pc.nomodrm (by simpa using hm)
-      exact ⟨by simp, by simp, by simp, by simp, by simp, by simp; omega, by simp, by simpa using hnr, by simpa using and7_lt _⟩
+      refine ⟨by simp, by simp, by simp, by simp, by simp, by simp; omega, by simp, by simpa using hnr, by simpa using and7_lt _,
+        fun h => pushOpcode_mono _ _ h, ?_, ?_⟩
+      · exact pushOpcode_osh { s0 with haveModrm := true, modrm := (src[s0.pos]).toNat, pos := s0.pos + 1 } _
+      · intro h
+        have hm0 : (src[s0.pos]).toNat ≠ 0 := and7_and7_ne h
+        rcases hz with h1 | h1
+        · exact pushOpcode_mono _ _ h1
+        · exact pushOpcode_nz { s0 with haveModrm := true, modrm := (src[s0.pos]).toNat, pos := s0.pos + 1 } _ hm0 h1
     · rw [hn]; exact good_truncated src
 
-theorem modrmSib_good {n : Nat} (src : Bytes) (hn : n = src.length) (P : Pfx) (s0 s : St) (hs : MStage n s0 s) :
-    ExGood n (MStage n s0) (modrmSib src P s) := by
+theorem modrmSib_good {n : Nat} (src : Bytes) (hn : n = src.length) (P : Pfx) (s0 s : St) (hs : MStage n 1 s0 s) :
+    ExGood n (MStage n 2 s0) (modrmSib src P s) := by
+  have hosh2 : s0.osh8 ≤ s.osh8 + 8 * 2 := by have := hs.osh; omega
   unfold modrmSib
   refine q_ite (fun _ => ?_) (fun _ => ?_)
   · refine q_dite (fun hlt => ?_) (fun _ => ?_)
     · dsimp only
       have hb : ∀ b : Nat, b < 16 → (baseRegFor P.am + b) % 256 ≠ regRIP := fun b hb => base_ne_rip _ _ hb
+      have hmono : s0.opcode ≠ 0 → (pushOpcode { s with pos := s.pos + 1, haveSIB := true } (src[s.pos]).toNat).opcode ≠ 0 :=
+        fun h => pushOpcode_mono _ _ (hs.mono h)
+      have hosh : s0.osh8 ≤ (pushOpcode { s with pos := s.pos + 1, haveSIB := true } (src[s.pos]).toNat).osh8 + 8 * 2 := by
+        have h1 := pushOpcode_osh { s with pos := s.pos + 1, haveSIB := true } (src[s.pos]).toNat
+        have h2 : ({ s with pos := s.pos + 1, haveSIB := true } : St).osh8 = s.osh8 := rfl
+        have := hs.osh
+        omega
+      have hrmnz : s.rm &&& 7 ≠ 0 → (pushOpcode { s with pos := s.pos + 1, haveSIB := true } (src[s.pos]).toNat).opcode ≠ 0 :=
+        fun h => pushOpcode_mono _ _ (hs.rm_nz h)
       refine q_ite (fun _ => ?_) (fun _ => ?_)
       · exact ⟨by simpa using hs.narg, by simpa using hs.immcpos, by simpa using hs.pcrel, by simpa using hs.pcreloff,
-          by have := hs.pos_ge; simp; omega, by simp; omega, by simpa using hs.have_, by simpa using hs.notrip, by simpa using hs.rm_lt⟩
+          by have := hs.pos_ge; simp; omega, by simp; omega, by simpa using hs.have_, by simpa using hs.notrip, by simpa using hs.rm_lt,
+          hmono, hosh, by simpa using hrmnz⟩
       · refine ⟨by simpa using hs.narg, by simpa using hs.immcpos, by simpa using hs.pcrel, by simpa using hs.pcreloff,
-          by have := hs.pos_ge; simp; omega, by simp; omega, by simpa using hs.have_, ?_, by simpa using hs.rm_lt⟩
+          by have := hs.pos_ge; simp; omega, by simp; omega, by simpa using hs.have_, ?_, by simpa using hs.rm_lt,
+          hmono, hosh, by simpa using hrmnz⟩
         show (baseRegFor P.am + _) % 256 ≠ regRIP
         apply hb
         refine q_ite (Q := fun v => v < 16) (fun _ => or8_lt _ (and7_lt _)) (fun _ => and7_lt _)
@@ -318,19 +417,22 @@ theorem modrmSib_good {n : Nat} (src : Bytes) (hn : n = src.length) (P : Pfx) (s
   · dsimp only
     have hrm : (if P.rex &&& 1 ≠ 0 then s.rm ||| 8 else s.rm) < 16 :=
       q_ite (Q := fun v => v < 16) (fun _ => or8_lt _ hs.rm_lt) (fun _ => hs.rm_lt)
+    have hnz : (if P.rex &&& 1 ≠ 0 then s.rm ||| 8 else s.rm) &&& 7 ≠ 0 → s.opcode ≠ 0 := by
+      refine q_ite (Q := fun v => v &&& 7 ≠ 0 → s.opcode ≠ 0) (fun _ => ?_) (fun _ => hs.rm_nz)
+      rw [or8_and7 _ hs.rm_lt]; exact hs.rm_nz
     refine q_ite (fun _ => ?_) (fun _ => q_ite (fun _ => ?_) (fun _ => ?_))
-    · exact ⟨hs.narg, hs.immcpos, hs.pcrel, hs.pcreloff, hs.pos_ge, hs.pos_le, hs.have_, hs.notrip, hrm⟩
-    · exact ⟨hs.narg, hs.immcpos, hs.pcrel, hs.pcreloff, hs.pos_ge, hs.pos_le, hs.have_, base_ne_rip _ _ hrm, hrm⟩
-    · exact ⟨hs.narg, hs.immcpos, hs.pcrel, hs.pcreloff, hs.pos_ge, hs.pos_le, hs.have_, hs.notrip, hrm⟩
+    · exact ⟨hs.narg, hs.immcpos, hs.pcrel, hs.pcreloff, hs.pos_ge, hs.pos_le, hs.have_, hs.notrip, hrm, hs.mono, hosh2, hnz⟩
+    · exact ⟨hs.narg, hs.immcpos, hs.pcrel, hs.pcreloff, hs.pos_ge, hs.pos_le, hs.have_, base_ne_rip _ _ hrm, hrm, hs.mono, hosh2, hnz⟩
+    · exact ⟨hs.narg, hs.immcpos, hs.pcrel, hs.pcreloff, hs.pos_ge, hs.pos_le, hs.have_, hs.notrip, hrm, hs.mono, hosh2, hnz⟩
 
-theorem modrmDisp32_good {n : Nat} (src : Bytes) (hn : n = src.length) (s0 s : St) (hs : MStage n s0 s) :
-    ExGood n (fun s' => MStage n s0 s' ∧ Disp s0 s') (modrmDisp32 src s) := by
+theorem modrmDisp32_good {n : Nat} (src : Bytes) (hn : n = src.length) (s0 s : St) (hs : MStage n 2 s0 s) :
+    ExGood n (fun s' => MStage n 2 s0 s' ∧ Disp s0 s') (modrmDisp32 src s) := by
   unfold modrmDisp32
   refine q_ite (fun _ => ?_) (fun hc => ?_)
   · refine q_ite (fun _ => ?_) (fun hle => ?_)
     · rw [hn]; exact good_truncated src
     · have := hs.pos_ge
-      refine ⟨⟨hs.narg, hs.immcpos, hs.pcrel, hs.pcreloff, ?_, ?_, hs.have_, hs.notrip, hs.rm_lt⟩, ?_⟩
+      refine ⟨⟨hs.narg, hs.immcpos, hs.pcrel, hs.pcreloff, ?_, ?_, hs.have_, hs.notrip, hs.rm_lt, hs.mono, hs.osh, hs.rm_nz⟩, ?_⟩
       · show s0.pos + 1 ≤ s.pos + 4; omega
       · show s.pos + 4 ≤ n; omega
       · intro _; show (4:Nat) = 4 ∧ s0.pos + 1 ≤ s.pos ∧ s.pos + 4 ≤ s.pos + 4; omega
@@ -338,14 +440,14 @@ theorem modrmDisp32_good {n : Nat} (src : Bytes) (hn : n = src.length) (s0 s : S
     intro hd
     exact absurd (Or.inl ⟨hd.1, Or.inl hd.2⟩) hc
 
-theorem modrmDisp8_good {n : Nat} (src : Bytes) (hn : n = src.length) (s0 s : St) (hs : MStage n s0 s) (hd : Disp s0 s) :
-    ExGood n (fun s' => MStage n s0 s' ∧ Disp s0 s') (modrmDisp8 src s) := by
+theorem modrmDisp8_good {n : Nat} (src : Bytes) (hn : n = src.length) (s0 s : St) (hs : MStage n 2 s0 s) (hd : Disp s0 s) :
+    ExGood n (fun s' => MStage n 2 s0 s' ∧ Disp s0 s') (modrmDisp8 src s) := by
   unfold modrmDisp8
   refine q_ite (fun h1 => ?_) (fun _ => ⟨hs, hd⟩)
   refine q_ite (fun _ => ?_) (fun hle => ?_)
   · rw [hn]; exact good_truncated src
   · have := hs.pos_ge
-    refine ⟨⟨hs.narg, hs.immcpos, hs.pcrel, hs.pcreloff, ?_, ?_, hs.have_, hs.notrip, hs.rm_lt⟩, ?_⟩
+    refine ⟨⟨hs.narg, hs.immcpos, hs.pcrel, hs.pcreloff, ?_, ?_, hs.have_, hs.notrip, hs.rm_lt, hs.mono, hs.osh, hs.rm_nz⟩, ?_⟩
     · show s0.pos + 1 ≤ s.pos + 1; omega
     · show s.pos + 1 ≤ n; omega
     · intro h0; have : s.mod_ = 0 := h0.1; omega
@@ -357,10 +459,11 @@ structure MDone (n : Nat) (s0 s : St) : Prop where
   pos_ge : s0.pos + 1 ≤ s.pos
   pos_le : s.pos ≤ n
   pc : PcInv s
+  op : OpRel s0 s false 2
 
 theorem eip_ne_rip : regEIP ≠ regRIP := by decide
 
-theorem modrmRip_good {n : Nat} (P : Pfx) (s0 s : St) (h0 : PcInv s0) (hs : MStage n s0 s) (hd : Disp s0 s) :
+theorem modrmRip_good {n : Nat} (P : Pfx) (s0 s : St) (h0 : PcInv s0) (hs : MStage n 2 s0 s) (hd : Disp s0 s) :
     MDone n s0 (modrmRip P s) := by
   have hpcrel : ∀ s' : St, s'.pcrel = s.pcrel → s'.pcreloff = s.pcreloff → s'.pos = s.pos →
       (s'.pcrel ≠ 0 → (s'.pcrel = 1 ∨ s'.pcrel = 2 ∨ s'.pcrel = 4) ∧ 1 ≤ s'.pcreloff ∧ s'.pcreloff + s'.pcrel ≤ s'.pos) := by
@@ -370,9 +473,11 @@ theorem modrmRip_good {n : Nat} (P : Pfx) (s0 s : St) (h0 : PcInv s0) (hs : MSta
     have := h0.pcrel hne
     have := hs.pos_ge
     omega
+  have hpnz : s.pcrel ≠ 0 → s.opcode ≠ 0 := fun h => hs.mono (h0.pcrel_nz (hs.pcrel ▸ h))
+  have hop : OpRel s0 s false 2 := ⟨hs.mono, hs.osh, fun h => by cases h⟩
   unfold modrmRip
   refine q_ite (fun hc => ?_) (fun _ => ?_)
-  · refine ⟨hs.narg, hs.immcpos, hs.pos_ge, hs.pos_le, ⟨?_, ?_, hpcrel _ rfl rfl rfl⟩⟩
+  · refine ⟨hs.narg, hs.immcpos, hs.pos_ge, hs.pos_le, ⟨?_, ?_, hpcrel _ rfl rfl rfl, ?_, hpnz⟩, ⟨hs.mono, hs.osh, fun h => by cases h⟩⟩
     · intro _
       have := hd hc
       show s.displen = 4 ∧ 1 ≤ s.dispoff ∧ s.dispoff + 4 ≤ s.pos
@@ -380,12 +485,15 @@ theorem modrmRip_good {n : Nat} (P : Pfx) (s0 s : St) (h0 : PcInv s0) (hs : MSta
     · intro hf
       have : s.haveModrm = false := hf
       rw [hs.have_] at this; cases this
-  · refine ⟨hs.narg, hs.immcpos, hs.pos_ge, hs.pos_le, ⟨fun h => absurd h hs.notrip, fun _ => hs.notrip, hpcrel _ rfl rfl rfl⟩⟩
+    · intro _
+      exact hs.rm_nz (by rw [hc.2]; decide)
+  · exact ⟨hs.narg, hs.immcpos, hs.pos_ge, hs.pos_le,
+      ⟨fun h => absurd h hs.notrip, fun _ => hs.notrip, hpcrel _ rfl rfl rfl, fun h => absurd h hs.notrip, hpnz⟩, hop⟩
 
-theorem readModrm_good {n : Nat} {c : Cert} (src : Bytes) (hn : n = src.length) (P : Pfx) (s0 : St) (hi : Inv n c s0) :
-    ExGood n (MDone n s0) (readModrm src P s0) := by
+theorem readModrm_good {n : Nat} {c : Cert} (src : Bytes) (hn : n = src.length) (P : Pfx) (s0 : St) (hi : Inv n c s0)
+    (hz : s0.opcode ≠ 0 ∨ 8 ≤ s0.osh8) : ExGood n (MDone n s0) (readModrm src P s0) := by
   unfold readModrm
-  have h1 := modrmHead_good src hn P s0 hi
+  have h1 := modrmHead_good src hn P s0 hi hz
   cases e1 : modrmHead src P s0 with
   | error r => rw [e1] at h1; exact h1
   | ok s1 =>
@@ -410,18 +518,24 @@ theorem readModrm_good {n : Nat} {c : Cert} (src : Bytes) (hn : n = src.length) 
           rw [e4] at h4
           exact modrmRip_good P s0 s4 hi.pc h4.1 h4.2
 
+/-- from the certificate requirement `c.z ≤ 4` at a ModR/M-reading instruction: the ModR/M byte will be recorded, or Opcode ≠ 0 already -/
+theorem Inv.room {n : Nat} {c : Cert} {s : St} (hi : Inv n c s) (hz : c.z ≤ 4) : s.opcode ≠ 0 ∨ 8 ≤ s.osh8 := by
+  rcases hi.opz with h | ⟨_, h⟩
+  · exact Or.inl h
+  · exact Or.inr (by omega)
+
 
 theorem plainOK_elim {c : Cert} {x next : Nat} (h : plainOK c x next = true) :
     ∃ e, plainEff x = some e ∧ (e.needCons = true → c.cons = true) ∧ e.needImmcw ≤ c.immcw ∧ e.static = true ∧
-      edgeOK c e.dn e.rd e.cs next = true := by
+      c.z ≤ e.needZ ∧ edgeOK c e.dn e.rd e.cs false e.np next = true := by
   unfold plainOK at h
   split at h
   · cases h
   · rename_i e he
     simp only [Bool.and_eq_true, Bool.or_eq_true, Bool.not_eq_true', decide_eq_true_eq] at h
-    refine ⟨e, he, ?_, h.1.1.2, h.1.2, h.2⟩
+    refine ⟨e, he, ?_, h.1.1.1.2, h.1.1.2, h.1.2, h.2⟩
     intro hn
-    rcases h.1.1.1 with h1 | h1
+    rcases h.1.1.1.1 with h1 | h1
     · rw [hn] at h1; cases h1
     · exact h1
 
@@ -437,28 +551,28 @@ theorem effIs_elim {x : Nat} {Q : Eff → Bool} {e : Eff} (h : effIs x Q = true)
 def oneArgOps : List Nat := fixedOps ++ immOps ++ memOps ++ moffsOps ++ [xArgYmm1] ++ regopOps ++ mmOps ++ [xArgCR0dashCR7, xArgSreg]
   ++ rmfOps ++ opregOps ++ rmOps ++ [xArgMm2, xArgXmm2, xArgRel8, xArgRel16, xArgRel32]
 
-theorem oneArg_eff_all : ((oneArgOps).all fun x => effIs x (fun e => e.dn == 1 && e.rd == 0 && !e.cs)) = true := by decide +kernel
-theorem oneArg_eff : ∀ x ∈ oneArgOps, effIs x (fun e => e.dn == 1 && e.rd == 0 && !e.cs) = true := fun x hx => List.all_eq_true.mp oneArg_eff_all x hx
+theorem oneArg_eff_all : ((oneArgOps).all fun x => effIs x (fun e => e.dn == 1 && e.rd == 0 && !e.cs && e.np == 0)) = true := by decide +kernel
+theorem oneArg_eff : ∀ x ∈ oneArgOps, effIs x (fun e => e.dn == 1 && e.rd == 0 && !e.cs && e.np == 0) = true := fun x hx => List.all_eq_true.mp oneArg_eff_all x hx
 theorem fixed_static_all : ((fixedOps).all fun x => effIs x (fun e => !e.static || decide (x < fixedArg.size))) = true := by decide +kernel
 theorem fixed_static : ∀ x ∈ fixedOps, effIs x (fun e => !e.static || decide (x < fixedArg.size)) = true := fun x hx => List.all_eq_true.mp fixed_static_all x hx
 theorem mem_static_all : ((memOps ++ moffsOps ++ rmOps).all fun x => effIs x (fun e => !e.static || decide (x < len_memBytes))) = true := by decide +kernel
 theorem mem_static : ∀ x ∈ memOps ++ moffsOps ++ rmOps, effIs x (fun e => !e.static || decide (x < len_memBytes)) = true := fun x hx => List.all_eq_true.mp mem_static_all x hx
 theorem reg_static_all : (([xArgYmm1] ++ regopOps ++ mmOps ++ rmfOps ++ opregOps ++ rmOps ++ [xArgMm2, xArgXmm2]).all fun x => effIs x (fun e => !e.static || decide (x < baseReg.size))) = true := by decide +kernel
 theorem reg_static : ∀ x ∈ [xArgYmm1] ++ regopOps ++ mmOps ++ rmfOps ++ opregOps ++ rmOps ++ [xArgMm2, xArgXmm2], effIs x (fun e => !e.static || decide (x < baseReg.size)) = true := fun x hx => List.all_eq_true.mp reg_static_all x hx
-theorem readI_eff_all : (([xReadSlashR, xReadIb, xReadIw, xReadID, xReadIo]).all fun x => effIs x (fun e => e.dn == 0 && e.rd == 0 && e.cs)) = true := by decide +kernel
-theorem readI_eff : ∀ x ∈ [xReadSlashR, xReadIb, xReadIw, xReadID, xReadIo], effIs x (fun e => e.dn == 0 && e.rd == 0 && e.cs) = true := fun x hx => List.all_eq_true.mp readI_eff_all x hx
-theorem readC_eff_all : (([xReadCb, xReadCw, xReadCd, xReadCp, xReadCm]).all fun x => effIs x (fun e => e.dn == 0 && e.rd == readCWidth x && e.cs && e.needCons)) = true := by decide +kernel
-theorem readC_eff : ∀ x ∈ [xReadCb, xReadCw, xReadCd, xReadCp, xReadCm], effIs x (fun e => e.dn == 0 && e.rd == readCWidth x && e.cs && e.needCons) = true := fun x hx => List.all_eq_true.mp readC_eff_all x hx
-theorem ptr_eff_all : (([xArgPtr16colon16, xArgPtr16colon32]).all fun x => effIs x (fun e => e.dn == 2 && e.rd == 0 && !e.cs)) = true := by decide +kernel
-theorem ptr_eff : ∀ x ∈ [xArgPtr16colon16, xArgPtr16colon32], effIs x (fun e => e.dn == 2 && e.rd == 0 && !e.cs) = true := fun x hx => List.all_eq_true.mp ptr_eff_all x hx
+theorem readI_eff_all : (([xReadIb, xReadIw, xReadID, xReadIo]).all fun x => effIs x (fun e => e.dn == 0 && e.rd == 0 && e.cs && e.np == 0)) = true := by decide +kernel
+theorem readI_eff : ∀ x ∈ [xReadIb, xReadIw, xReadID, xReadIo], effIs x (fun e => e.dn == 0 && e.rd == 0 && e.cs && e.np == 0) = true := fun x hx => List.all_eq_true.mp readI_eff_all x hx
+theorem readC_eff_all : (([xReadCb, xReadCw, xReadCd, xReadCp, xReadCm]).all fun x => effIs x (fun e => e.dn == 0 && e.rd == readCWidth x && e.cs && e.needCons && e.np == 0)) = true := by decide +kernel
+theorem readC_eff : ∀ x ∈ [xReadCb, xReadCw, xReadCd, xReadCp, xReadCm], effIs x (fun e => e.dn == 0 && e.rd == readCWidth x && e.cs && e.needCons && e.np == 0) = true := fun x hx => List.all_eq_true.mp readC_eff_all x hx
+theorem ptr_eff_all : (([xArgPtr16colon16, xArgPtr16colon32]).all fun x => effIs x (fun e => e.dn == 2 && e.rd == 0 && !e.cs && e.np == 0)) = true := by decide +kernel
+theorem ptr_eff : ∀ x ∈ [xArgPtr16colon16, xArgPtr16colon32], effIs x (fun e => e.dn == 2 && e.rd == 0 && !e.cs && e.np == 0) = true := fun x hx => List.all_eq_true.mp ptr_eff_all x hx
 theorem rel_eff : effIs xArgRel8 (fun e => e.needImmcw == 1) = true ∧ effIs xArgRel16 (fun e => e.needImmcw == 2) = true
     ∧ effIs xArgRel32 (fun e => e.needImmcw == 4) = true := by decide
 
-theorem plain_onearg {c : Cert} {x next : Nat} (h : plainOK c x next = true) (hx : x ∈ oneArgOps) : edgeOK c 1 0 false next = true := by
-  obtain ⟨e, he, _, _, _, hed⟩ := plainOK_elim h
+theorem plain_onearg {c : Cert} {x next : Nat} (h : plainOK c x next = true) (hx : x ∈ oneArgOps) : edgeOK c 1 0 false false 0 next = true := by
+  obtain ⟨e, he, _, _, _, _, hed⟩ := plainOK_elim h
   have := effIs_elim (oneArg_eff x hx) he
   simp only [Bool.and_eq_true, beq_iff_eq, Bool.not_eq_true'] at this
-  rw [this.1.1, this.1.2, this.2] at hed
+  rw [this.1.1.1, this.1.1.2, this.1.2, this.2] at hed
   exact hed
 
 theorem plain_fixed_static {c : Cert} {x next : Nat} (h : plainOK c x next = true) (hx : x ∈ fixedOps) : x < fixedArg.size := by
@@ -480,27 +594,39 @@ theorem plain_reg_static {c : Cert} {x next : Nat} (h : plainOK c x next = true)
   exact ⟨baseReg[x], by unfold regOf; exact Array.getElem?_eq_getElem hlt⟩
 
 theorem plain_readI {c : Cert} {x next : Nat} (h : plainOK c x next = true)
-    (hx : x ∈ [xReadSlashR, xReadIb, xReadIw, xReadID, xReadIo]) : edgeOK c 0 0 true next = true := by
-  obtain ⟨e, he, _, _, _, hed⟩ := plainOK_elim h
+    (hx : x ∈ [xReadIb, xReadIw, xReadID, xReadIo]) : edgeOK c 0 0 true false 0 next = true := by
+  obtain ⟨e, he, _, _, _, _, hed⟩ := plainOK_elim h
   have := effIs_elim (readI_eff x hx) he
   simp only [Bool.and_eq_true, beq_iff_eq] at this
-  rw [this.1.1, this.1.2, this.2] at hed
+  rw [this.1.1.1, this.1.1.2, this.1.2, this.2] at hed
   exact hed
 
+theorem slash_eff : effIs xReadSlashR (fun e => e.dn == 0 && e.rd == 0 && e.cs && e.np == 2 && e.needZ == 4) = true := by decide
+
+/-- `xReadSlashR`: the certificate guarantees room for the ModR/M byte in Opcode (or Opcode ≠ 0), and the edge accounts for 2 shifts -/
+theorem plain_slash {c : Cert} {next : Nat} (h : plainOK c xReadSlashR next = true) :
+    c.z ≤ 4 ∧ edgeOK c 0 0 true false 2 next = true := by
+  obtain ⟨e, he, _, _, _, hz, hed⟩ := plainOK_elim h
+  have := effIs_elim slash_eff he
+  simp only [Bool.and_eq_true, beq_iff_eq] at this
+  rw [this.1.1.1.1, this.1.1.1.2, this.1.1.2, this.1.2] at hed
+  rw [this.2] at hz
+  exact ⟨hz, hed⟩
+
 theorem plain_readC {c : Cert} {x next : Nat} (h : plainOK c x next = true)
-    (hx : x ∈ [xReadCb, xReadCw, xReadCd, xReadCp, xReadCm]) : c.cons = true ∧ edgeOK c 0 (readCWidth x) true next = true := by
-  obtain ⟨e, he, hc, _, _, hed⟩ := plainOK_elim h
+    (hx : x ∈ [xReadCb, xReadCw, xReadCd, xReadCp, xReadCm]) : c.cons = true ∧ edgeOK c 0 (readCWidth x) true false 0 next = true := by
+  obtain ⟨e, he, hc, _, _, _, hed⟩ := plainOK_elim h
   have := effIs_elim (readC_eff x hx) he
   simp only [Bool.and_eq_true, beq_iff_eq] at this
-  rw [this.1.1.1, this.1.1.2, this.1.2] at hed
-  exact ⟨hc this.2, hed⟩
+  rw [this.1.1.1.1, this.1.1.1.2, this.1.1.2, this.2] at hed
+  exact ⟨hc this.1.2, hed⟩
 
 theorem plain_ptr {c : Cert} {x next : Nat} (h : plainOK c x next = true)
-    (hx : x ∈ [xArgPtr16colon16, xArgPtr16colon32]) : edgeOK c 2 0 false next = true := by
-  obtain ⟨e, he, _, _, _, hed⟩ := plainOK_elim h
+    (hx : x ∈ [xArgPtr16colon16, xArgPtr16colon32]) : edgeOK c 2 0 false false 0 next = true := by
+  obtain ⟨e, he, _, _, _, _, hed⟩ := plainOK_elim h
   have := effIs_elim (ptr_eff x hx) he
   simp only [Bool.and_eq_true, beq_iff_eq, Bool.not_eq_true'] at this
-  rw [this.1.1, this.1.2, this.2] at hed
+  rw [this.1.1.1, this.1.1.2, this.1.2, this.2] at hed
   exact hed
 
 theorem plain_rel {c : Cert} {x next : Nat} (k : Nat) (h : plainOK c x next = true)
@@ -511,31 +637,37 @@ theorem plain_rel {c : Cert} {x next : Nat} (k : Nat) (h : plainOK c x next = tr
   · have := effIs_elim rel_eff.2.1 he; simp only [beq_iff_eq] at this; omega
   · have := effIs_elim rel_eff.2.2 he; simp only [beq_iff_eq] at this; omega
 
+theorem relz_eff : ∀ x ∈ [xArgRel8, xArgRel16, xArgRel32], effIs x (fun e => e.needZ == 0) = true := by decide
+
+/-- `xArgRel8/16/32`: the certificate guarantees `inst.Opcode ≠ 0` here -/
+theorem plain_rel_z {c : Cert} {x next : Nat} (h : plainOK c x next = true) (hx : x ∈ [xArgRel8, xArgRel16, xArgRel32]) : c.z = 0 := by
+  obtain ⟨e, he, _, _, _, hz, _⟩ := plainOK_elim h
+  have := effIs_elim (relz_eff x hx) he
+  simp only [beq_iff_eq] at this
+  omega
+
+theorem Inv.opcode_nz {n : Nat} {c : Cert} {s : St} (hi : Inv n c s) (hz : c.z = 0) : s.opcode ≠ 0 := by
+  rcases hi.opz with h | ⟨h, _⟩
+  · exact h
+  · omega
 
 theorem Inv.regop {n : Nat} {c : Cert} {s : St} (hi : Inv n c s) (r : Nat) : Inv n c { s with regop := r } :=
-  hi.of_eq rfl rfl rfl (hi.pc.of_eq rfl rfl rfl rfl rfl rfl (Nat.le_refl _))
+  hi.of_eq rfl rfl rfl (hi.pc.of_eq rfl rfl rfl rfl rfl rfl (Nat.le_refl _) id)
 
 theorem Inv.memBase0 {n : Nat} {c : Cert} {s : St} (hi : Inv n c s) : Inv n c { s with memBase := 0 } :=
-  hi.of_eq rfl rfl rfl ⟨fun h => absurd h rip_ne_zero, fun _ => rip_ne_zero, hi.pc.pcrel⟩
+  hi.of_eq rfl rfl rfl ⟨fun h => absurd h rip_ne_zero, fun _ => rip_ne_zero, hi.pc.pcrel, fun h => absurd h rip_ne_zero, hi.pc.pcrel_nz⟩
 
-theorem Inv.rel {n : Nat} {c : Cert} {s : St} (hi : Inv n c s) (k : Nat) (hk : k = 1 ∨ k = 2 ∨ k = 4) (hw : k ≤ c.immcw) :
-    Inv n c { s with pcreloff := s.immcpos, pcrel := k } := by
-  refine hi.of_eq rfl rfl rfl ⟨hi.pc.rip, hi.pc.nomodrm, ?_⟩
+theorem Inv.rel {n : Nat} {c : Cert} {s : St} (hi : Inv n c s) (k : Nat) (hk : k = 1 ∨ k = 2 ∨ k = 4) (hw : k ≤ c.immcw)
+    (hz : c.z = 0) : Inv n c { s with pcreloff := s.immcpos, pcrel := k } := by
+  refine hi.of_eq rfl rfl rfl ⟨hi.pc.rip, hi.pc.nomodrm, ?_, hi.pc.rip_nz, fun _ => hi.opcode_nz hz⟩
   intro _
   have := hi.immc (by omega)
   show (k = 1 ∨ k = 2 ∨ k = 4) ∧ 1 ≤ s.immcpos ∧ s.immcpos + k ≤ s.pos
   omega
 
-theorem Inv.of_mdone {n : Nat} {c : Cert} {s0 s : St} (hi : Inv n c s0) (hm : MDone n s0 s) : Inv n c s := by
-  refine ⟨hm.narg ▸ hi.narg, hi.nargMax, hm.pos_le, fun _ => by have := hm.pos_ge; omega, ?_, hm.pc⟩
-  intro hw
-  have := hi.immc hw
-  have := hm.pos_ge
-  rw [hm.immcpos]; omega
-
 set_option maxRecDepth 2000 in
 theorem stepPlain_good {n : Nat} {c : Cert} (src : Bytes) (hn : n = src.length) (P : Pfx) (x next : Nat) (s : St)
-    (hok : plainOK c x next = true) (hi : Inv n c s) (hslash : x = xReadSlashR → 1 ≤ s.pos) :
+    (hok : plainOK c x next = true) (hi : Inv n c s) (hslash : x ≠ xReadSlashR) :
     StepGood n c (stepPlain src P x next s) := by
   have one : x ∈ oneArgOps → ∀ (s' : St) (r : Nat), Inv n c s' → StepGood n c (putArg s' r next) :=
     fun hx s' r hi' => putArg_good r (plain_onearg hok hx) hi'
@@ -544,8 +676,7 @@ theorem stepPlain_good {n : Nat} {c : Cert} (src : Bytes) (hn : n = src.length) 
   have hbrk : StepGood n c (.brk { s with op := 0 }) := brk_fail hi
   unfold stepPlain
   refine q_ite (fun hx => ?_) (fun _ => ?_)
-  · have he := plain_readI hok (by simp [hx])
-    exact edge_next he hi rfl (Nat.le_refl _) hi.pos_le (fun _ => hslash hx) (by simp) hi.pc
+  · exact absurd hx hslash
   refine q_ite (fun hx => ?_) (fun _ => ?_)
   · exact readImm_good src hn 1 (by omega) (plain_readI hok (by simp [hx])) hi
   refine q_ite (fun hx => ?_) (fun _ => ?_)
@@ -592,11 +723,11 @@ theorem stepPlain_good {n : Nat} {c : Cert} (src : Bytes) (hn : n = src.length) 
   -- ptr
   refine q_ite (fun hx => ?_) (fun _ => ?_)
   · have he := plain_ptr hok (x := x) (by simpa using hx)
-    obtain ⟨c', _, _, hna, hnm, _, _⟩ := edgeOK_elim he
+    obtain ⟨c', _, _, hna, hnm, _, _, _⟩ := edgeOK_elim he
     have hlt : s.narg + 1 < len_args := by have := hi.narg; omega
     rw [if_pos hlt]
     exact edge_next he hi rfl (Nat.le_refl _) hi.pos_le (fun hh => by cases hh) (by simp)
-      (hi.pc.of_eq rfl rfl rfl rfl rfl rfl (Nat.le_refl _))
+      (hi.pc.of_eq rfl rfl rfl rfl rfl rfl (Nat.le_refl _) id) (OpRel.same rfl rfl)
   -- moffs
   refine q_ite (fun hx => ?_) (fun _ => ?_)
   · exact onem (by simp [oneArgOps, hx]) (by simp [hx]) _ hi.memBase0
@@ -624,7 +755,7 @@ theorem stepPlain_good {n : Nat} {c : Cert} (src : Bytes) (hn : n = src.length) 
   refine q_ite (fun hx => ?_) (fun _ => ?_)
   · dsimp only
     refine q_ite (fun _ => ?_) (fun _ => ?_)
-    · exact ⟨hi.pos_le, fun h => absurd rfl h, hi.pc.of_eq rfl rfl rfl rfl rfl rfl (Nat.le_refl _)⟩
+    · exact ⟨hi.pos_le, fun h => absurd rfl h, hi.pc.of_eq rfl rfl rfl rfl rfl rfl (Nat.le_refl _) id⟩
     · exact one (by simp [oneArgOps, hx]) _ _ (hi.regop _)
   -- rmf
   refine q_ite (fun hx => ?_) (fun _ => ?_)
@@ -657,11 +788,11 @@ theorem stepPlain_good {n : Nat} {c : Cert} (src : Bytes) (hn : n = src.length) 
     exact one (by simp [oneArgOps, hx]) _ _ hi
   -- Rel8/16/32
   refine q_ite (fun hx => ?_) (fun _ => ?_)
-  · exact one (by simp [oneArgOps, hx]) _ _ (hi.rel 1 (by omega) (plain_rel 1 hok (Or.inl ⟨hx, rfl⟩)))
+  · exact one (by simp [oneArgOps, hx]) _ _ (hi.rel 1 (by omega) (plain_rel 1 hok (Or.inl ⟨hx, rfl⟩)) (plain_rel_z hok (by simp [hx])))
   refine q_ite (fun hx => ?_) (fun _ => ?_)
-  · exact one (by simp [oneArgOps, hx]) _ _ (hi.rel 2 (by omega) (plain_rel 2 hok (Or.inr (Or.inl ⟨hx, rfl⟩))))
+  · exact one (by simp [oneArgOps, hx]) _ _ (hi.rel 2 (by omega) (plain_rel 2 hok (Or.inr (Or.inl ⟨hx, rfl⟩))) (plain_rel_z hok (by simp [hx])))
   refine q_ite (fun hx => ?_) (fun _ => ?_)
-  · exact one (by simp [oneArgOps, hx]) _ _ (hi.rel 4 (by omega) (plain_rel 4 hok (Or.inr (Or.inr ⟨hx, rfl⟩))))
+  · exact one (by simp [oneArgOps, hx]) _ _ (hi.rel 4 (by omega) (plain_rel 4 hok (Or.inr (Or.inr ⟨hx, rfl⟩))) (plain_rel_z hok (by simp [hx])))
   exact good_err n s.pos .internal (Or.inl rfl) hi.pos_le
 
 
@@ -672,7 +803,7 @@ theorem step_good {n : Nat} {c : Cert} (src : Bytes) (hn : n = src.length) (P : 
   | match_ =>
     have hc : c.cons = true := hok
     exact ⟨hi.pos_le, fun _ => hi.cons hc, hi.pc⟩
-  | jump t => exact edge_same (s' := s) hok hi rfl rfl rfl rfl rfl rfl rfl rfl rfl
+  | jump t => exact edge_same (s' := s) hok hi rfl rfl rfl rfl rfl rfl rfl rfl rfl rfl rfl
   | condByte ents fall ff =>
     simp only [instrOK, Bool.and_eq_true] at hok
     unfold step
@@ -690,6 +821,18 @@ theorem step_good {n : Nat} {c : Cert} (src : Bytes) (hn : n = src.length) (P : 
         · intro _; simp
         · simp
         · exact hi.pc.of_eq (by simp) (by simp) (by simp) (by simp) (by simp) (by simp) (by simp)
+            (fun h => pushOpcode_mono { s with pos := s.pos + 1 } _ h)
+        · refine ⟨fun h => pushOpcode_mono { s with pos := s.pos + 1 } _ h, ?_, ?_⟩
+          · have := pushOpcode_osh { s with pos := s.pos + 1 } (src[s.pos]).toNat
+            have h2 : ({ s with pos := s.pos + 1 } : St).osh8 = s.osh8 := rfl
+            omega
+          · intro hpz hroom
+            have hb := (List.find?_some hf)
+            simp only [beq_iff_eq] at hb
+            have hnz : (src[s.pos]).toNat ≠ 0 := by
+              rw [← hb]
+              simpa using hpz
+            exact pushOpcode_nz { s with pos := s.pos + 1 } _ hnz hroom
       | none =>
         dsimp only
         apply edge_next hok.2 hi
@@ -705,13 +848,14 @@ theorem step_good {n : Nat} {c : Cert} (src : Bytes) (hn : n = src.length) (P : 
         · show (if ff = true then { s with pos := s.pos + 1 } else s).immcpos = s.immcpos
           split <;> rfl
         · refine q_ite (Q := fun s' => PcInv s') (fun _ => ?_) (fun _ => hi.pc)
-          exact hi.pc.of_eq rfl rfl rfl rfl rfl rfl (by show s.pos ≤ s.pos + 1; omega)
+          exact hi.pc.of_eq rfl rfl rfl rfl rfl rfl (by show s.pos ≤ s.pos + 1; omega) id
+        · exact q_ite (Q := fun s' => OpRel s s' false 0) (fun _ => OpRel.same rfl rfl) (fun _ => OpRel.same rfl rfl)
     · rw [hn]; exact good_truncated src
-  | condIs64 t => exact edge_same (s' := s) hok hi rfl rfl rfl rfl rfl rfl rfl rfl rfl
+  | condIs64 t => exact edge_same (s' := s) hok hi rfl rfl rfl rfl rfl rfl rfl rfl rfl rfl rfl
   | condIsMem tReg tMem =>
     simp only [instrOK, Bool.and_eq_true] at hok
-    have h1 : StepGood n c (.next tReg s) := edge_same hok.1.2 hi rfl rfl rfl rfl rfl rfl rfl rfl rfl
-    have h2 : StepGood n c (.next tMem s) := edge_same hok.2 hi rfl rfl rfl rfl rfl rfl rfl rfl rfl
+    have h1 : StepGood n c (.next tReg s) := edge_same hok.1.2 hi rfl rfl rfl rfl rfl rfl rfl rfl rfl rfl rfl
+    have h2 : StepGood n c (.next tMem s) := edge_same hok.2 hi rfl rfl rfl rfl rfl rfl rfl rfl rfl rfl rfl
     unfold step
     refine q_ite (fun _ => ?_) (fun _ => ?_)
     · exact q_ite (Q := fun t => StepGood n c (.next t s)) (fun _ => h2) (fun _ => h1)
@@ -724,21 +868,21 @@ theorem step_good {n : Nat} {c : Cert} (src : Bytes) (hn : n = src.length) (P : 
     simp only [instrOK, Bool.and_eq_true] at hok
     unfold step
     cases P.dm
-    · exact edge_same (s' := s) hok.1.1 hi rfl rfl rfl rfl rfl rfl rfl rfl rfl
-    · exact edge_same (s' := s) hok.1.2 hi rfl rfl rfl rfl rfl rfl rfl rfl rfl
-    · exact edge_same (s' := s) hok.2 hi rfl rfl rfl rfl rfl rfl rfl rfl rfl
+    · exact edge_same (s' := s) hok.1.1 hi rfl rfl rfl rfl rfl rfl rfl rfl rfl rfl rfl
+    · exact edge_same (s' := s) hok.1.2 hi rfl rfl rfl rfl rfl rfl rfl rfl rfl rfl rfl
+    · exact edge_same (s' := s) hok.2 hi rfl rfl rfl rfl rfl rfl rfl rfl rfl rfl rfl
   | condAddrSize a b d =>
     simp only [instrOK, Bool.and_eq_true] at hok
     unfold step
     cases P.am
-    · exact edge_same (s' := s) hok.1.1 hi rfl rfl rfl rfl rfl rfl rfl rfl rfl
-    · exact edge_same (s' := s) hok.1.2 hi rfl rfl rfl rfl rfl rfl rfl rfl rfl
-    · exact edge_same (s' := s) hok.2 hi rfl rfl rfl rfl rfl rfl rfl rfl rfl
+    · exact edge_same (s' := s) hok.1.1 hi rfl rfl rfl rfl rfl rfl rfl rfl rfl rfl rfl
+    · exact edge_same (s' := s) hok.1.2 hi rfl rfl rfl rfl rfl rfl rfl rfl rfl rfl rfl
+    · exact edge_same (s' := s) hok.2 hi rfl rfl rfl rfl rfl rfl rfl rfl rfl rfl rfl
   | condPrefix ents => exact condPrefixLoop_good P ents s hok hi
   | condSlashR ts =>
     simp only [instrOK, Bool.and_eq_true, decide_eq_true_eq] at hok
     unfold step
-    have hm := readModrm_good src hn P s hi
+    have hm := readModrm_good src hn P s hi (hi.room hok.1.1)
     cases em : readModrm src P s with
     | error r => rw [em] at hm; exact hm
     | ok s1 =>
@@ -746,25 +890,32 @@ theorem step_good {n : Nat} {c : Cert} (src : Bytes) (hn : n = src.length) (P : 
       dsimp only
       have hlt : s1.regop &&& 7 < ts.length := by
         have : s1.regop &&& 7 ≤ 7 := Nat.and_le_right
+        have := hok.1.2
         omega
       have hget : ts[s1.regop &&& 7]? = some ts[s1.regop &&& 7] := List.getElem?_eq_getElem hlt
       simp only [hget]
       have he := List.all_eq_true.mp hok.2 _ (List.getElem_mem hlt)
       have := hm.pos_ge
-      exact edge_next he hi (by rw [hm.narg]; rfl) (by omega) hm.pos_le (fun _ => by omega) (by simp [hm.immcpos]) hm.pc
-  | setOp op next => exact edge_same (s' := { s with op := op }) hok hi rfl rfl rfl rfl rfl rfl rfl rfl rfl
+      exact edge_next he hi (by rw [hm.narg]; rfl) (by omega) hm.pos_le (fun _ => by omega) (by simp [hm.immcpos]) hm.pc hm.op
+  | setOp op next => exact edge_same (s' := { s with op := op }) hok hi rfl rfl rfl rfl rfl rfl rfl rfl rfl rfl rfl
   | plain x next =>
     have hok' : plainOK c x next = true := hok
     unfold step
     refine q_ite (fun hx => ?_) (fun hx => ?_)
-    · have hm := readModrm_good src hn P s hi
+    · subst hx
+      have hsl := plain_slash hok'
+      have hm := readModrm_good src hn P s hi (hi.room hsl.1)
       cases em : readModrm src P s with
       | error r => rw [em] at hm; exact hm
       | ok s1 =>
         rw [em] at hm
         dsimp only
-        exact stepPlain_good src hn P x next s1 hok' (hi.of_mdone hm) (fun _ => by have := hm.pos_ge; omega)
-    · exact stepPlain_good src hn P x next s hok' hi (fun h => absurd h hx)
+        have hst : stepPlain src P xReadSlashR next s1 = .next next s1 := by
+          unfold stepPlain; rw [if_pos rfl]
+        rw [hst]
+        have := hm.pos_ge
+        exact edge_next hsl.2 hi (by rw [hm.narg]; rfl) (by omega) hm.pos_le (fun _ => by omega) (by simp [hm.immcpos]) hm.pc hm.op
+    · exact stepPlain_good src hn P x next s hok' hi hx
   | bad x => cases hok
 
 
@@ -775,7 +926,7 @@ theorem finish_good {n : Nat} (src : Bytes) (hn : n = src.length) (P : Pfx) (s :
   · refine q_ite (fun h => ?_) (fun _ => ?_)
     · rw [hn]; exact good_instPrefix src (hp h)
     · exact good_err n s.pos .unrec (Or.inr rfl) hb.pos_le
-  · exact ⟨by simp, by simp, hb.pos_le, fun _ => hb.pos_pos hop, hb.pc.pcrel⟩
+  · exact ⟨by simp, by simp, hb.pos_le, fun _ => hb.pos_pos hop, hb.pc.pcrel, fun _ => hb.pc.pcrel_nz⟩
 
 theorem run_good {n : Nat} (src : Bytes) (hn : n = src.length) (P : Pfx) (hp : P.nprefix > 0 → 0 < src.length) :
     ∀ (fuel pc : Nat) (s : St) (c : Cert), cert? pc = some c → c.rank < fuel → Inv n c s → GoodRes n (run src P fuel pc s) := by
@@ -884,9 +1035,14 @@ theorem decode_good (src0 : Bytes) : GoodRes (src0.take 15).length (decode src0)
       | some c =>
         rw [hc] at he
         simp only [Bool.and_eq_true, decide_eq_true_eq, Bool.not_eq_true'] at he
-        refine run_good (src0.take 15) rfl P (fun hp => by have := h2.2; omega) fuel0 1 _ c hc he.1.1.1 ?_
-        refine ⟨Nat.zero_le _, he.1.1.2, h2.1, fun h => ?_, fun h => ?_, ⟨fun h => absurd h rip_ne_zero, fun _ => rip_ne_zero, fun h => absurd rfl h⟩⟩
-        · rw [he.2] at h; cases h
+        refine run_good (src0.take 15) rfl P (fun hp => by have := h2.2; omega) fuel0 1 _ c hc he.1.1.1.1 ?_
+        refine ⟨Nat.zero_le _, he.1.1.1.2, h2.1, fun h => ?_, fun h => ?_,
+          ⟨fun h => absurd h rip_ne_zero, fun _ => rip_ne_zero, fun h => absurd rfl h, fun h => absurd h rip_ne_zero, fun h => absurd rfl h⟩,
+          Or.inr ⟨he.2, ?_⟩⟩
         · rw [he.1.2] at h; cases h
+        · rw [he.1.1.2] at h; cases h
+        · show 40 ≤ 32 + 8 * c.z
+          have := he.2
+          omega
 
 end C16L
